@@ -22,7 +22,10 @@ def sq(design, cat, technique, text, note=SQ_NOTE):
 
 BFS = "explicit-state breadth-first search over operation histories of the real object (re-executed per state), states deduplicated by concrete-state hash, reference-model comparison of every probe in every state"
 
+ENUM = "bounded-exhaustive enumeration of inputs x environment answers (read segmentations, early stops, faults) executed on the real code and compared with a Go reference model"
+
 CHECKS = {
+ "C01": sq("4/C01", "exploration", ENUM, "Every byte string of <= 4 (thorough 5) tokens over a 14-token alphabet (LF, CR, field names, colon, space, BOM, NUL, 0xFF, ...), every sequence of <= 3 (4) lines over a 15-line alphabet x {LF, CR, CRLF} with the last line terminated or not, and a size family around 4 KiB / 64 KiB, each through sse.Read and Connection.Connect, under all 2^(n-1) segmentations for short strings (single/pair cuts, byte-at-a-time beyond) and every early-stop position, compared with a byte-level transcription of the WHATWG algorithm."),
  "C08": sq("4/C08", "model_checking", BFS, "All histories of valid/invalid Puts up to 4N+2 (thorough 6N+3) operations for capacities 2..4 (thorough ..5), both ID modes: the reachable concrete states of the ring buffer are enumerated completely (the state space closes: the frontier empties), and in each of them every Replay probe (every issued ID, never-issued, next-to-be-issued, unset x 4 topic sets x failing Send position) is compared with a list of the last N accepted events."),
  "C09": sq("4/C09", "model_checking", BFS, "All histories over {Put a, Put b, invalid Put, GC, advance 1 tick, advance TTL, 5 Puts, 9 Puts} up to depth 7 (thorough 10) with bounded clock advances and macro operations, TTL 2/3 ticks x 5 GCInterval settings x both ID modes, so the buffer grows 4-8-16-32, wraps and shrinks again; in every reachable state every probe is compared with a list model with per-entry expiry and every unexpired event must still be held."),
  "C18": sq("4/C18", "model_checking", BFS, "Same state spaces as C08 and C09; the invariant 'the set of *Message reachable from the replayer (reflective walk, slices to capacity) contains only the last N accepted / nothing expired right after a collection' is evaluated in every reachable state."),
